@@ -665,6 +665,54 @@ F10sig(g, o) ==
 Sigs(g, o) == (IF F2sig(g, o) THEN {"F2"} ELSE {}) \cup (IF F6sig(g, o) THEN {"F6"} ELSE {})
               \cup (IF F10sig(g, o) THEN {"F10"} ELSE {})
 
+(***************************************************************************)
+(* Vacuity guard: is the antecedent of a clause true on this step?  The    *)
+(* trace checker counts these per clause, so that the evidence shows how   *)
+(* often each clause was really exercised.                                 *)
+(***************************************************************************)
+Ante(p, g, o, g2) ==
+  LET cn == IF o.e.k \in {"Cmd", "CrashInCmd"} THEN g.gc[o.e.c] ELSE Conn0 IN
+  CASE p = "C01.a" -> Succeeded(g, o) /\ CmdIs(o, "open") /\ AddedOf(g, cn.app, o.e.m.mailbox) # <<>>
+    [] p = "C02.a" -> Succeeded(g, o) /\ CmdIs(o, "add") /\ Cardinality(Subscribers(g, cn.app, cn.mboxId)) >= 2
+    [] p = "C02.b" -> MsgTo(o) # {}
+    [] p = "C03.a" -> IsCmd(o) /\ FramesTo(o, o.e.c, "claimed") # <<>>
+    [] p = "C03.b" -> \E r \in o.db.np : HasNp(o.db2, r.app, r.name)
+    [] p = "C03.c" -> \E r \in o.db2.np : ~HasNp(o.db, r.app, r.name)
+    [] p \in {"C04.a", "C04.b"} -> Allocated(o) # <<>>
+    [] p \in {"C05.a", "C05.b", "C05.c", "C05.keep"} -> IsCmd(o) /\ ErrIs(o, "crowded")
+    [] p = "C06.frame" -> o.e.k \in {"Cmd", "CrashInCmd"} /\ \E r \in o.db.mb : r.app # cn.app
+    [] p = "C07.a" -> \E r \in o.db.nps : r.claimed /\ ~ClaimedIn(o.db2, r.app, r.name, r.side)
+    [] p \in {"C07.c", "C07.e"} -> Carried(g, o) /\ CmdIs(o, "release")
+    [] p = "C07.d" -> IsCmd(o) /\ ErrIs(o, "reclaimed")
+    [] p \in {"C08.a", "C08.b"} -> C08ante(g, o)
+    [] p = "C08.c" -> C08ante(g, o) /\ \E r \in MbSides(o.db, CloseId(g, o)) : r.side # cn.side /\ r.opened
+    [] p = "C08.d" -> C08ante(g, o) /\ HasMb(o.db, cn.app, CloseId(g, o))
+                      /\ ~(\E r \in MbSides(o.db, CloseId(g, o)) : r.side # cn.side /\ r.opened)
+    [] p = "C09.a" -> o.out # <<>>
+    [] p = "C09.b" -> \E k \in DOMAIN o.out : o.out[k].type \in {"allocated", "claimed", "released", "closed", "message"}
+    [] p = "C10.a" -> o.tr # <<>>
+    [] p = "C10.b" -> o.e.k = "Start" /\ g.crashed
+    [] p = "C10.c" -> g.crashed /\ o.e.k \in {"Cmd", "Sweep", "Start"}
+    [] p = "C12.a" -> SweepLike(o) /\ \E r \in o.db.mb : Protected(g, o, r.app, r.id)
+    [] p = "C12.c" -> SweepLike(o) /\ ~g.faulted /\ \E r \in o.db.mb : Subscribers(g, r.app, r.id) = {} /\
+                        \E x \in g.lastSub : x.app = r.app /\ x.mbox = r.id /\ o.now - x.t < EXP - PERIOD
+    [] p = "C13.a" -> o.e.k \in {"Sweep", "Start"} /\ ~o.e.fault /\ \E r \in o.db.mb : Idle(g, o, r.app, r.id)
+    [] p = "C13.b" -> o.e.k = "Sweep" /\ g.faulted
+    [] p = "C13.c" -> g2.up /\ o.now2 > g2.idleSince + EXP + PERIOD /\ g2.upSince <= g2.idleSince /\ o.e.k = "Sweep" /\ ~o.e.fault
+    [] p = "C15.a" -> C15ante(g, o, g2) /\ GoneNp(o) # {}
+    [] p = "C15.b" -> C15ante(g, o, g2) /\ GoneMb(o) # {}
+    [] p = "C15.c" -> C15ante(g, o, g2) /\ o.e.k = "Sweep" /\ \E x \in Conns : g2.gc[x].held
+    [] p = "C16.a" -> UsageOn /\ Blur > 0 /\ Len(o.udb2.unp) > Len(o.udb.unp)
+    [] p = "C16.b" -> UsageOn /\ Blur > 0 /\ Len(o.udb2.umb) > Len(o.udb.umb)
+    [] p = "C16.c" -> UsageOn /\ Blur > 0 /\ Len(o.udb2.ucv) > Len(o.udb.ucv)
+    [] p = "C17.a" -> o.e.k = "Connect"
+    [] p = "C17.b" -> IsCmd(o) /\ o.e.m.id # ABSENT
+    [] p = "C17.d" -> IsCmd(o) /\ o.e.m.type = "ping" /\ o.e.m.ping # ABSENT
+    [] p = "C17.e" -> IsCmd(o) /\ PErrOf(g, o) # ABSENT
+    [] p = "C17.g" -> IsCmd(o) /\ InvolvedConns(g, o) \cap g.refused # {}
+    [] p = "C18.a" -> Carried(g, o) /\ CmdIs(o, "list")
+    [] OTHER -> TRUE
+
 \* the clauses of each listed property ("C05" without the keep-access clause,
 \* which is known finding F6 and is checked separately)
 PropClauses ==
